@@ -259,6 +259,26 @@ def one_value(bs, acc, sp, n, v, full):
                     acc.violation('create', 'value' if got[0] == 'ok' else 'exc', dict(dtype=dn, n=n, value=str(fkey(v))[:60], route=rname, cls=cls, group=f'{rname}|{sp.kind}'),
                                   '\n'.join(["import bitstring", "nan, inf = float('nan'), float('inf')", f"r = ({src.format(cls=cls, dn=dn, n=n, vs=vs)}).bin",
                                              f"assert r == {exp!r}, r"]), exp, got)
+    # history: build into a mutable owner, mutate it in place, build the same value again (a store shared with a memo would show)
+    if full:
+        for cls in ('BitArray', 'BitStream'):
+            for rname, fn, src, _m in CREATE[:4]:
+                if rname == 'setattr-len' and n == 0 or (n == 0 and rname in ('kw-sized', 'setattr-sized')):
+                    continue
+                try:
+                    x = fn(bs, cls, sp.name, n, v, vs)
+                    x.invert()
+                    x.append('0b1')
+                except Exception:  # noqa: BLE001 - reported by the creation comparison above
+                    continue
+                again = obs(lambda: fn(bs, cls, sp.name, n, v, vs).bin)
+                other = obs(lambda: bs.Bits(**{sp.name: v}, length=n).bin if n or sp.kind not in ('hex', 'oct', 'bin') else bs.Bits(**{sp.name: v}).bin)
+                acc.step('create', 2, nontrivial=2, ok=2)
+                okk = (again == ('ok', exp) and other == ('ok', exp)) or (nan and again[0] == other[0] == 'ok')
+                if not okk:
+                    acc.violation('create', 'value', dict(dtype=sp.name, n=n, value=str(fkey(v))[:60], route=rname, cls=cls, group='after-mutating-earlier-result'),
+                                  '\n'.join(["import bitstring", "nan, inf = float('nan'), float('inf')", f"x = {src.format(cls=cls, dn=sp.name, n=n, vs=vs)}", "x.invert(); x.append('0b1')",
+                                             f"y = {src.format(cls=cls, dn=sp.name, n=n, vs=vs)}", f"assert y.bin == {exp!r}, y.bin"]), exp, (again, other))
     # reading routes on objects built from the reference encoding (the value read back is the decoded encoding: a float that
     # is not representable in the width reads back as its struct rounding)
     v = sp.dec(exp)
